@@ -130,6 +130,18 @@ theorem c02_read_complete (d : Defs) (n : Nat) (t : Ty) (nm : String) (sd : Stru
   · cases hdec
   · cases hdec
 
+/-- Unknown fields are skipped: at any point of the emitted field loop (`acc` = whatever has been
+read so far), a field whose id the struct does not declare — carrying ANY well-typed value `u` of ANY
+type of ANY definitions table `d'` (the sender's schema, unknown to the reader) — is consumed and
+leaves the loop exactly where it would be without it. -/
+theorem c02_skip_unknown (d d' : Defs) (n : Nat) (sd : StructDef) (fuel : Nat) (nm : String) (uid : Int)
+    (tu : Ty) (u : Val) (body rest : List Event) (acc : List (Int × Val))
+    (hunk : sd.fields.find? (·.id = uid) = none)
+    (hwt : WT d' (n + 1) tu u) (henc : encV d' (n + 1) tu u = .ok body) :
+    decFields (decV d n) (skip (n + 1)) sd (fuel + 1) (.fb nm (wireOf d' tu) uid :: (body ++ .fe :: rest)) acc
+      = decFields (decV d n) (skip (n + 1)) sd fuel rest acc :=
+  decFields_skip_unknown _ _ sd fuel nm _ uid body rest acc hunk (skip_enc d' (n + 1) tu u body _ hwt henc)
+
 /-- Enums are written as I32, strings and binaries as STRING, through any typedef: the wire type
 is a function of the resolved type only. -/
 theorem c02_wire_type_of_resolved (d : Defs) (t t' : Ty) (h : resolve d t = resolve d t') :
